@@ -10,6 +10,7 @@ package main
 import (
 	"encoding/json"
 	"sort"
+	"strconv"
 
 	"verif/harness/common"
 )
@@ -139,6 +140,36 @@ func c08ManyChildren(r *common.Rand, n int, which int) mCase {
 	c.Steps = append(c.Steps, mStep{K: "child", I: late, M: g.childMsgEvent("s1", g.pool[2+r.Intn(3)])})
 	c.Steps = append(c.Steps, mStep{K: "child", I: late, M: &mMsg{T: "eose", Sub: "s1"}})
 	c.Steps = append(c.Steps, mStep{K: "child", I: r.Intn(n), M: g.childMsgEvent("s1", common.Pick(r, g.pool))})
+	return c
+}
+
+// c08ManySameTS: one subscription whose stored answer holds very many events
+// with one created_at (a bulk import): child 0 sends m distinct events of the
+// same timestamp and its EOSE; child 1 then sends some of them again (the
+// first three, one from the middle, the last) and its EOSE.  Every repeat is
+// due to be dropped however large m is: the set of ids already forwarded for
+// the current timestamp has no bound.  The numbers used lie just above powers
+// of two.
+var c08SameTSMs = []int{130, 520, 1030, 2060}
+
+func c08ManySameTS(r *common.Rand, m int) mCase {
+	g := &c08Gen{r: r, n: 2}
+	ts := int64(1700000000 + r.Intn(5))
+	pk := common.Pick(r, common.Small.PKs)
+	evs := make([]common.JEvent, m)
+	for i := range evs {
+		evs[i] = common.JEvent{ID: "b" + strconv.Itoa(i), PK: pk, TS: ts, Kind: 1, Tags: [][]string{}}
+	}
+	c := mCase{N: 2}
+	c.Steps = append(c.Steps, mStep{K: "req", Sub: "s1", Fs: []common.JFilter{{}}})
+	for _, e := range evs {
+		c.Steps = append(c.Steps, mStep{K: "child", I: 0, M: g.childMsgEvent("s1", e)})
+	}
+	c.Steps = append(c.Steps, mStep{K: "child", I: 0, M: &mMsg{T: "eose", Sub: "s1"}})
+	for _, i := range []int{0, 1, 2, m / 2, m - 1, r.Intn(m)} {
+		c.Steps = append(c.Steps, mStep{K: "child", I: 1, M: g.childMsgEvent("s1", evs[i])})
+	}
+	c.Steps = append(c.Steps, mStep{K: "child", I: 1, M: &mMsg{T: "eose", Sub: "s1"}})
 	return c
 }
 
@@ -342,6 +373,11 @@ func init() {
 				for w := 0; w < 3; w++ {
 					cases = append(cases, c08ManyChildren(many.Fork(uint64(3*k+w)), nn, w))
 				}
+			}
+			// very many events with one timestamp, in every tier
+			same := root.Fork(1 << 43)
+			for k, m := range c08SameTSMs {
+				cases = append(cases, c08ManySameTS(same.Fork(uint64(k)), m))
 			}
 			for i := 0; i < n; i++ {
 				cases = append(cases, c08Generate(root.Fork(uint64(i))))
